@@ -42,69 +42,117 @@ def component(text):
     return None
 
 
+def side_comp(o):
+    """(side, component) of a comparison operand: ('self'|'other', 'major'|'minor'|'patch'), or None"""
+    txt = fmt_origin(o)
+    fs = origin_fields(o) & {"major", "minor", "patch"}
+    if len(fs) != 1:
+        return None
+    a1, a2 = _mentions_arg(o, 1), _mentions_arg(o, 2)
+    if a1 == a2:
+        return None
+    return ("self" if a1 else "other", next(iter(fs)))
+
+
+def _mentions_arg(o, i):
+    if isinstance(o, tuple):
+        if o and o[0] == "arg" and len(o) > 1 and o[1] == i:
+            return True
+        return any(_mentions_arg(x, i) for x in o if isinstance(x, (tuple, list)))
+    if isinstance(o, list):
+        return any(_mentions_arg(x, i) for x in o)
+    return False
+
+
+def _revision_or_zero(o):
+    """the operand is `patch.unwrap_or(0)` / `unwrap_or_default()` (a missing revision counts as 0)"""
+    for x in origin_calls(o):
+        if x[1].endswith("Option::<T>::unwrap_or") and len(x[3]) > 1 and x[3][1][0] == "const" and x[3][1][1] == 0:
+            return True
+        if x[1].endswith("Option::<T>::unwrap_or_default"):
+            return True
+    return False
+
+
 def cmp_table(ctx, rep):
-    b = ctx.mir.body("<%s as core::cmp::Ord>::cmp" % GV)
-    if b is None:
+    """R16.2: Ord::cmp normalised (private helpers inlined, `then_with` / `map_or` chains expanded into the matches they stand
+    for) and extracted as a decision table; the component comparisons are the table's inputs, and the table is evaluated for
+    all 27 combinations of their outcomes against the lexicographic order (number, letter, revision-or-0)."""
+    import tabeval
+    from mirq import expand_adaptors, inline_calls
+    b0 = ctx.mir.body("<%s as core::cmp::Ord>::cmp" % GV)
+    if b0 is None:
         rep.fail("R16.2", "cmp:found", "Ord::cmp for GameVersion not found")
         return
-    rep.fn(b.name)
-    calls = b.calls_to(r"PartialOrd::partial_cmp$")
+    rep.fn(b0.name)
+    b = inline_calls(b0, lambda d: d.startswith(GV + "::") and "{closure" not in d, depth=2)
+    b = expand_adaptors(b)
+    b = inline_calls(b, lambda d: d.startswith(GV + "::") and "{closure" not in d, depth=2)
+    calls = b.calls_to(r"PartialOrd::partial_cmp$|cmp::Ord::cmp$")
     comps = {}
     for bb, t in calls:
         a, c = b.origin(t["args"][0]), b.origin(t["args"][1])
-        fa, fc = origin_fields(a) - {"0"}, origin_fields(c) - {"0"}
-        sa, sc = fmt_origin(a), fmt_origin(c)
-        comp = component(sa)
-        ok = comp is not None and fa == fc == {comp} and "arg1" in sa and "arg2" in sc and "arg2" not in sa and "arg1" not in sc
-        if comp == "patch":
-            ok = ok and all(any(x[1].endswith("Option::<T>::unwrap_or") and x[3][1][0] == "const" and x[3][1][1] == 0 for x in origin_calls(o)) for o in (a, c))
+        sa, sc = side_comp(a), side_comp(c)
+        comp = sa[1] if sa else None
+        ok = sa is not None and sc is not None and sa[0] == "self" and sc[0] == "other" and sa[1] == sc[1]
+        if ok and comp == "patch":
+            ok = _revision_or_zero(a) and _revision_or_zero(c)
         comps[comp] = bb
-        rep.check("R16.2", "cmp:component:%s" % comp, ok, "component comparison must be (self.%s, other.%s)%s; found (%s, %s)" % (comp, comp, " with a missing revision counting as 0" if comp == "patch" else "", sa, sc),
-                  b.loc(t["line"]), sample={"component": comp, "lhs": sa, "rhs": sc})
-    rep.check("R16.2", "cmp:components", set(comps) == {"major", "minor", "patch"}, "expected comparisons of major, minor and patch (found %s)" % sorted(c for c in comps if c), b.loc())
+        rep.check("R16.2", "cmp:component:%s" % comp, ok, "component comparison must be (self.%s, other.%s)%s; found (%s, %s)" % (
+            comp, comp, " with a missing revision counting as 0" if comp == "patch" else "", fmt_origin(a), fmt_origin(c)),
+            b0.loc(t["line"]), sample={"component": comp, "lhs": fmt_origin(a), "rhs": fmt_origin(c)})
+    rep.check("R16.2", "cmp:components", set(comps) == {"major", "minor", "patch"}, "expected comparisons of major, minor and patch (found %s)" % sorted(c for c in comps if c), b0.loc())
     rows = b.decision_rows()
-    bad = []
+    cur = {}
+    ENC = {"L": 255, "E": 0, "G": 1}
+    DEC = {255: "L", -1: "L", 0: "E", 1: "G"}
+
+    def call(d, rd, args, model):
+        if re.search(r"PartialOrd::partial_cmp$|cmp::Ord::cmp$", d) and len(args) == 2:
+            sa, sc = side_comp(args[0]), side_comp(args[1])
+            if sa is None or sc is None or sa[1] != sc[1]:
+                raise tabeval.Unknown("comparison of %s with %s" % (fmt_origin(args[0]), fmt_origin(args[1])))
+            o = cur[sa[1]]
+            if sa[0] == "other":       # swapped operands
+                o = {"L": "G", "G": "L", "E": "E"}[o]
+            v = ("enum", ENC[o])
+            return ("opt", True, v) if d.endswith("partial_cmp") else v
+        if d.endswith("Ordering::reverse"):
+            v = model.ev.ev(args[0])
+            return ("enum", {255: 1, 1: 255, 0: 0}[v[1]])
+        if d.endswith("Ordering::then"):
+            v = model.ev.ev(args[0])
+            return v if v[1] != 0 else model.ev.ev(args[1])
+        return None
+    model = tabeval.Model(ctx, b, None, local_prefix=GV, extra_call=call)
+    # discriminant switches on an Ordering list -1 as 255 or as -1 depending on the width rustc chose: normalise
+    nrows = []
+    for conds, ret, others in rows:
+        nc = tuple((c[0], c[1], c[2], tuple(x & 0xFF for x in c[3]), c[4]) for c in conds)
+        nrows.append((nc, ret, others))
     n = 0
     for (ma, mi, pa) in itertools.product("LEG", repeat=3):
-        asg = {"major": ma, "minor": mi, "patch": pa}
-        hits = []
-        for conds, ret, others in rows:
-            ok = True
-            for c in conds:
-                comp = component(c[1])
-                if comp is None:
-                    ok = None
-                    break
-                if "as Some.0" in c[1]:
-                    v = ORD[asg[comp]] & 0xFF if ORD[asg[comp]] < 0 else ORD[asg[comp]]
-                    vals = [x & 0xFF for x in c[3]]
-                else:
-                    v = 1       # partial_cmp returned Some
-                    vals = list(c[3])
-                sat = (v in vals) if c[2] in ("eq", "any") else (v not in vals)
-                if not sat:
-                    ok = False
-                    break
-            if ok is None:
-                bad.append((asg, "row with an unrecognised condition %s" % (conds,)))
-            elif ok:
-                hits.append(ret)
+        cur.update({"major": ma, "minor": mi, "patch": pa})
+        model.ev.reset()
         results = set()
-        for ret in hits:
-            if ret[1] in ("Less", "Equal", "Greater"):
-                results.add(ret[1][0])
-            elif ret[1] == "use" and ret[2]:
-                comp = component(ret[2][0])
-                results.add(asg[comp] if comp else "?")
-            else:
-                results.add("?")
+        try:
+            for r in model.ev.matching_rows(nrows):
+                ret = r[1]
+                if ret[1] in ("Less", "Equal", "Greater"):
+                    results.add(ret[1][0])
+                elif ret[3]:
+                    v = model.ev.ev(ret[3][0])
+                    results.add(DEC.get(v[1], "?") if isinstance(v, tuple) and v[0] == "enum" else "?")
+                else:
+                    results.add("?")
+        except (tabeval.Unknown, tabeval.Panic) as e:
+            rep.fail("R16.2", "cmp:unrecognised", "the comparison table could not be evaluated (%s)" % e, b0.loc())
+            break
         want = ma if ma != "E" else (mi if mi != "E" else pa)
         n += 1
         rep.check("R16.2", "cmp:row:%s%s%s" % (ma, mi, pa), results == {want},
-                  "cmp with (number %s, letter %s, revision %s) returns %s, lexicographic order requires %s" % (ma, mi, pa, sorted(results), want), b.loc(),
+                  "cmp with (number %s, letter %s, revision %s) returns %s, lexicographic order requires %s" % (ma, mi, pa, sorted(results), want), b0.loc(),
                   sample={"orderings": [ma, mi, pa], "result": sorted(results)} if n <= 3 else None)
-    for x in bad[:3]:
-        rep.fail("R16.2", "cmp:unrecognised", str(x), b.loc())
     rep.floor("R16.2", 27)
     p = ctx.mir.body("<%s as core::cmp::PartialOrd>::partial_cmp" % GV)
     okp = False
@@ -119,24 +167,32 @@ def cmp_table(ctx, rep):
 
 
 def eq_keys(ctx, rep):
+    from mirq import inline_calls
     b = ctx.mir.body("<%s as core::cmp::PartialEq>::eq" % GV)
     if b is None:
         rep.fail("R16.2", "eq:found", "PartialEq::eq for GameVersion not found")
         return
     rep.fn(b.name)
+    b = inline_calls(b, lambda d: d.startswith(GV + "::") and "{closure" not in d, depth=2)
     tests = []
     for bl in b.blocks:
         for st in bl["stmts"]:
-            if st["k"] == "assign" and st["rv"]["k"] == "bin" and st["rv"]["op"] == "Eq":
+            if st["k"] == "assign" and st["rv"]["k"] == "bin" and st["rv"]["op"] in ("Eq", "Ne"):
                 l, r = b.origin(st["rv"]["l"]), b.origin(st["rv"]["r"])
-                tests.append((fmt_origin(l), fmt_origin(r)))
+                tests.append((st["rv"]["op"], l, r))
     comps = {}
-    for l, r in tests:
-        c = component(l)
-        comps[c] = component(r) == c and "arg1" in l and "arg2" in r
-    okp = any("unwrap_or(*arg1.patch, 0)" in l and "unwrap_or(*arg2.patch, 0)" in r for l, r in tests)
+    okp = False
+    for op, l, r in tests:
+        sl, sr = side_comp(l), side_comp(r)
+        if sl is None or sr is None:
+            comps[None] = False
+            continue
+        comps[sl[1]] = sl[1] == sr[1] and {sl[0], sr[0]} == {"self", "other"}
+        if sl[1] == "patch":
+            okp = _revision_or_zero(l) and _revision_or_zero(r)
+    shown = [(op, fmt_origin(l), fmt_origin(r)) for op, l, r in tests]
     rep.check("R16.2", "eq:keys", comps == {"major": True, "minor": True, "patch": True} and okp and len(tests) == 3,
-              "eq must compare exactly (number, letter, revision-or-0) of self and other; found %s" % tests, b.loc(), sample={"tests": tests})
+              "eq must compare exactly (number, letter, revision-or-0) of self and other; found %s" % shown, b.loc(), sample={"tests": shown})
     rows = b.decision_rows()
     falses = [r for r in rows if r[1][1] == "use" and r[1][2] == ("0",)]
     rep.check("R16.2", "eq:conjunction", len(falses) == 2 and len(rows) == 3, "eq must be the conjunction of the three tests (rows %d)" % len(rows), b.loc(), nontrivial=False)
